@@ -42,6 +42,7 @@ ENUM_WRONG = [(sec, opt, ty, src, i) for sec, opt, ty in OPTIONS for src in ("sf
 
 class Prop(BaseProp):
     ID = "C16"
+    ANCHORS = ['cminx:main', 'cminx.config:config_template', 'cminx.config:dict_to_settings']
     LEVEL = "exploration"
     RULE = ("(a) per option, every subset of the sources that can set it (command line, -s file, user file; packaged "
             "defaults always present) with values chosen so that every wrong precedence is visible -- exhaustive; "
